@@ -1127,3 +1127,107 @@ func sameReceiverValue(p *core.Prog, a, b *ssa.Call) bool {
 	}
 	return true
 }
+
+// RuleKTotalsAll — the totals of the balance report are the sum over all
+// nodes and all amounts:
+//
+//	(nodes)   in lib/reports/balance every call that sums a node's amounts into
+//	          a total (Amounts.SumIntoBy) is unconditional in its function: no
+//	          node of the tree is left out of Total (A+L) / Total (E+I+E);
+//	(amounts) in lib/amounts an accumulation `dest[k] = dest[k].Add(v)` inside a
+//	          loop over the source does not depend on a test of a decimal (the
+//	          new sum): an entry already in dest is always replaced by the sum.
+//
+// Both are necessary for Delta = 0: every posting is in exactly one node, and
+// a pair's two halves are in the two totals or cancel inside one.
+func RuleKTotalsAll(c *core.Ctx) {
+	const rule = "K-totals-all"
+	p := c.P
+	sumInto := p.Func(pkgAmounts, "Amounts.SumIntoBy")
+	if sumInto == nil {
+		c.Anchor(rule, "amounts.Amounts.SumIntoBy")
+		return
+	}
+	n := 0
+	for _, fn := range p.SrcFuncs() {
+		if core.PkgPathOf(fn) != pkgBalance {
+			continue
+		}
+		k := 0
+		core.EachInstr(fn, func(ins ssa.Instruction) {
+			call, ok := ins.(*ssa.Call)
+			if !ok || call.Call.StaticCallee() != sumInto {
+				return
+			}
+			n++
+			k++
+			key := fmt.Sprintf("%s:sum %d takes every node", core.FuncName(fn), k)
+			bad := ""
+			for _, b := range fn.Blocks {
+				iff, ok := b.Instrs[len(b.Instrs)-1].(*ssa.If)
+				if !ok {
+					continue
+				}
+				if ctl, _ := core.Controls(b, call.Block()); ctl && !core.IsLoopExitTest(b, call.Block()) {
+					bad = describeValue(p, iff.Cond)
+				}
+			}
+			if bad == "" {
+				c.Ob(rule, key, call.Pos(), core.FuncName(fn), core.Discharged, "unconditional")
+			} else {
+				c.Ob(rule, key, call.Pos(), core.FuncName(fn), core.Violated, "a node's amounts are added to the total only if "+bad+": amounts booked on the other nodes appear in their rows but not in the totals, so Delta is not zero")
+			}
+		})
+	}
+	// (amounts)
+	for _, fn := range p.SrcFuncs() {
+		if core.PkgPathOf(fn) != pkgAmounts {
+			continue
+		}
+		k := 0
+		core.EachInstr(fn, func(ins ssa.Instruction) {
+			mu, ok := ins.(*ssa.MapUpdate)
+			if !ok {
+				return
+			}
+			// dest[k] = dest[k].Add(v): the value is a decimal Add/Sub whose receiver is a lookup of the same map
+			call, ok := core.Strip(mu.Value).(*ssa.Call)
+			if !ok || call.Call.StaticCallee() == nil || core.PkgPathOf(call.Call.StaticCallee()) != pkgDecimal {
+				return
+			}
+			accum := false
+			for v := range originSet(p, call.Call.Args[0], 0) {
+				if lk, ok := v.(*ssa.Lookup); ok && p.SameExpr(lk.X, mu.Map) {
+					accum = true
+				}
+			}
+			if !accum {
+				return
+			}
+			n++
+			k++
+			key := fmt.Sprintf("%s:accumulation %d always stores the sum", core.FuncName(fn), k)
+			bad := ""
+			for _, b := range fn.Blocks {
+				iff, ok := b.Instrs[len(b.Instrs)-1].(*ssa.If)
+				if !ok {
+					continue
+				}
+				if ctl, _ := core.Controls(b, mu.Block()); !ctl || core.IsLoopExitTest(b, mu.Block()) {
+					continue
+				}
+				for v := range originSet(p, iff.Cond, 0) {
+					if cl, ok := v.(*ssa.Call); ok && cl.Call.StaticCallee() != nil && core.PkgPathOf(cl.Call.StaticCallee()) == pkgDecimal {
+						bad = describeValue(p, iff.Cond)
+					}
+				}
+			}
+			if bad == "" {
+				c.Ob(rule, key, mu.Pos(), core.FuncName(fn), core.Discharged, "the store depends on no test of a decimal")
+			} else {
+				c.Ob(rule, key, mu.Pos(), core.FuncName(fn), core.Violated, "the sum is stored only if "+bad+": otherwise the previous partial sum stays in the destination")
+			}
+		})
+	}
+	c.Floor(rule, 3)
+}
